@@ -353,7 +353,7 @@ impl Check for C07 {
         "C07"
     }
     fn workloads(&mut self, tier: Tier, _seed: u64) -> Vec<(String, u64)> {
-        let k = if tier == Tier::Quick { 1 } else { 25 };
+        let k = if tier == Tier::Quick { 10 } else { 100 };
         vec![("dyn-table-root".into(), 50_000 * k), ("dyn-any-root".into(), 8_000 * k), ("derived".into(), 8_000 * k)]
     }
     fn run(&mut self, ctx: &mut Ctx, workload: &str, index: u64, rng: &mut Rng) {
